@@ -1,6 +1,6 @@
 #!/bin/bash
 # evalmut2.sh <worktree-id> <property> [tier]: like evalmut.sh, but runs the check against a scratch
-# worktree (/tmp/snap2) with the change applied, so /repo is never touched
+# worktree (${SNAP:-/tmp/snap2}) with the change applied, so /repo is never touched
 export GOFLAGS=-mod=mod GOPROXY=off GOSUMDB=off GOTOOLCHAIN=local
 id=$1; prop=$2; tier=${3:-quick}
 wt=/tmp/mut/$id
@@ -12,20 +12,20 @@ pkg=geom; grep -q "^package rtree" mutation_out/demo_test.go && pkg=rtree
 t1=$(go test -vet=off -count=1 ./geom/... ./rtree/... ./carto/... 2>&1 | tail -5 | tr '\n' ' ')
 echo "$t1" | grep -q FAIL && suite=FAIL || suite=pass
 cp mutation_out/demo_test.go $pkg/zz_demo_test.go
-go test -vet=off -count=1 -run "$(grep -o 'func Test[A-Za-z0-9_]*' mutation_out/demo_test.go | sed 's/func //' | paste -sd'|')" ./$pkg > /tmp/evalmut_demo1.log 2>&1 && demo_with=pass || demo_with=FAIL
+go test -vet=off -count=1 -run "$(grep -o 'func Test[A-Za-z0-9_]*' mutation_out/demo_test.go | sed 's/func //' | paste -sd'|')" ./$pkg > /tmp/evalmut_demo1_$id.log 2>&1 && demo_with=pass || demo_with=FAIL
 git diff > /tmp/evalmut_cur_$id.diff; git apply -R /tmp/evalmut_cur_$id.diff
-go test -vet=off -count=1 -run "$(grep -o 'func Test[A-Za-z0-9_]*' mutation_out/demo_test.go | sed 's/func //' | paste -sd'|')" ./$pkg > /tmp/evalmut_demo2.log 2>&1 && demo_without=pass || demo_without=FAIL
+go test -vet=off -count=1 -run "$(grep -o 'func Test[A-Za-z0-9_]*' mutation_out/demo_test.go | sed 's/func //' | paste -sd'|')" ./$pkg > /tmp/evalmut_demo2_$id.log 2>&1 && demo_without=pass || demo_without=FAIL
 git apply /tmp/evalmut_cur_$id.diff
 rm -f $pkg/zz_demo_test.go
 echo "[$id] suite_with_change=$suite demo_with_change=$demo_with demo_without_change=$demo_without"
-[ -d /tmp/snap2 ] || git -C /repo worktree add --detach -q /tmp/snap2 HEAD
-git -C /tmp/snap2 checkout -q --detach $(git -C /repo rev-parse HEAD) && git -C /tmp/snap2 checkout -- .
-git -C /tmp/snap2 apply $out/patch.diff || { echo "[$id] patch does not apply to HEAD"; exit 2; }
+[ -d ${SNAP:-/tmp/snap2} ] || git -C /repo worktree add --detach -q ${SNAP:-/tmp/snap2} HEAD
+git -C ${SNAP:-/tmp/snap2} checkout -q --detach $(git -C /repo rev-parse HEAD) && git -C ${SNAP:-/tmp/snap2} checkout -- .
+git -C ${SNAP:-/tmp/snap2} apply $out/patch.diff || { echo "[$id] patch does not apply to HEAD"; exit 2; }
 cd /verif
 s=$(date +%s)
-/verif/bin/gosym check -repo /tmp/snap2 --tier $tier --no-evidence $prop > /tmp/evalmut_$id.log 2>&1; rc=$?
+/verif/bin/gosym check -repo ${SNAP:-/tmp/snap2} --tier $tier --no-evidence $prop > /tmp/evalmut_$id.log 2>&1; rc=$?
 e=$(date +%s)
-git -C /tmp/snap2 checkout -- .
+git -C ${SNAP:-/tmp/snap2} checkout -- .
 viol=$(grep -c '^VIOLATION' /tmp/evalmut_$id.log)
 echo "[$id] check $prop tier=$tier rc=$rc violations=$viol time=$((e-s))s : $(grep '^VIOLATION' -A1 /tmp/evalmut_$id.log | grep harness= | head -2 | cut -c1-200 | tr '\n' ' ')"
 cat > $out/meta.json <<EOM
